@@ -375,3 +375,26 @@ def distribution(cases, results):
         d[k]['histories'] += 1
         d[k]['with_removal'] += int(any(e[0] == 'removed' for x in r for e in x.get('events', [])))
     return d
+
+
+# ====================================================================================================================
+# Translator tie (appended; nothing above is changed): the same regenerated file as harness/C02.py - coq/gen/QueueStepGen.v,
+# one Gallina definition per method of psiaudio/queue.py (translate/pyqueue2coq.py), here the pause / resume path
+# (_ends_after, rewind_samples, cancel, requeue x2 + its dispatch, pause, resume) - is rebuilt, so that the theorems
+# C04_source_* of coq/Props/C04.v (coq/Queue/ProofsTieC04.v: the generated pause / resume are the model's, a history run
+# with the generated methods is the model's history, hence conservation / pause_exact / future_pause_rejected hold of it)
+# are re-checked against what the source says now.
+import C02 as _C02
+
+TRUSTED = list(TRUSTED) + [t for t in _C02.TRUSTED if t.startswith(('translate/pyqueue2coq.py', 'coq/Queue/TieLib.v'))] + [
+    'translate/pyqueue2coq.py, pause / resume path: pinned to sample numbers (the harness hands the model int(round((t - t0) * fs))): '
+    'the rejection test of pause, `new_sample = int(round((t - self._t0) * self._fs))`, both lines of _ends_after (end = t0 + declared '
+    'duration of the log entry, compared with t), `int(round(delay * self._fs))` of cancel; the Counter loop of requeue '
+    '(`for key, count in Counter(to_requeue).items(): .. += count`) read as one `+= 1` per element of to_requeue; logging with '
+    'compound arguments and the `trials = {..}` dicts built for it dropped; coq/Queue/TieLibC04.v (for loops with an accumulator, '
+    'list comprehension with a method call as filter)']
+
+
+def translate(repo):
+    """regenerate coq/gen/QueueStepGen.v from the source under test (see harness/C02.py translate)"""
+    return _C02.translate(repo)
